@@ -54,6 +54,8 @@ func checkC20(c *Check) {
 	p := c.P
 	c.registryLocked("C20.1 one-mutex")
 	c.peerConfigVerbatim("C20.1 registry-key-consistent")
+	c.capturedVarDiscipline("C20.3 every-listener-served")
+	c.configuredHoldTimeProvenance("C20.4 options-per-call")
 	isExists := func(e *Expr) bool {
 		return e.Op == "ex" && len(e.Args) == 2 && e.Args[0].Op == "val" && isBoolType(e.Typ)
 	}
